@@ -61,12 +61,15 @@ class C14(CFGProp):
                     Layer("CFG(2,2,2,4)", lambda: G.cfg_cases(2, 2, 2, 4, 4), rep=G.is_rep,
                           policies=["natural@plain", "1@plain"]),
                     Layer("CFG(3,2,2,<=3)", lambda: G.cfg_cases(3, 2, 2, 0, 3), rep=G.is_rep,
+                          policies=["natural@plain", "1@plain"]),
+                    Layer("S -> x y z + short productions for A, B", G.long_body_cases, rep=G.is_rep,
                           policies=["natural@plain", "1@plain"])]
         few = ["natural@plain", "1@plain", "2@plain", "3@plain"]
         return [Layer("CFG(2,2,2,<=4)", lambda: G.cfg_cases(2, 2, 2, 0, 4), rep=G.is_rep),
                 Layer("CFG(2,2,3,<=3)", lambda: G.cfg_cases(2, 2, 3, 0, 3), rep=G.is_rep, policies=few),
                 Layer("CFG(3,2,2,<=3)", lambda: G.cfg_cases(3, 2, 2, 0, 3), rep=G.is_rep, policies=few),
                 Layer("CFG(3,1,2,4)", lambda: G.cfg_cases(3, 1, 2, 4, 4), rep=G.is_rep, policies=few),
+                Layer("S -> x y z + short productions for A, B", G.long_body_cases, rep=G.is_rep, policies=few),
                 Layer("CFG(3,2,2,4)", lambda: G.cfg_cases(3, 2, 2, 4, 4), rep=G.is_rep, policies=few[:2]),
                 Layer("CFG(2,2,2,5)", lambda: G.cfg_cases(2, 2, 2, 5, 5), rep=G.is_rep, policies=few[:2])]
 
